@@ -19,8 +19,8 @@ LEVEL_NOTE = ('Sampling, not exhaustive. The name anchors are what detects shift
               'the raw text by span, so string-vs-lines alone would be vacuous there). Spans that are too wide but still contain the '
               'statement are not detected. Files with preprocessor directives are excluded (C05 covers source sanitising).')
 RULE = ('Case = one source file (60 % hostilegen with continuation lines, ;-joined statements, labels, comments between continuation '
-        'lines, mixed case, tabs; 25 % fgenlab with layout flags; 15 % repository sources without cpp directives; 15 % of all '
-        'cases get 1-3 blank/comment lines prepended), parsed with FP and with REGEX (AllClasses). Non-trivial = both parses '
+        'lines, mixed case, tabs; 25 % fgenlab with layout flags; 15 % repository sources without cpp directives; 12 % of all '
+        'cases get 1-3 blank/comment lines prepended, comments inside continued statements only in a 12 % slice), parsed with FP and with REGEX (AllClasses). Non-trivial = both parses '
         'succeeded and >= 30 nodes with Source were checked; distinct = hash of the text.')
 CASES = {'quick': 480, 'thorough': 7000}
 MIN_NONTRIVIAL = {'quick': 250, 'thorough': 3500}
